@@ -53,7 +53,7 @@ func (g *tgen) guard() (js_ast.Expr, string, js_ast.Expr, string) {
 	r := g.r
 	ref := r.Intn(5)
 	tref := ref
-	if r.Chance(15) {
+	if r.Chance(30) {
 		tref = r.Intn(5)
 	}
 	was := !r.Chance(12)
@@ -84,6 +84,40 @@ func (g *tgen) guard() (js_ast.Expr, string, js_ast.Expr, string) {
 	}
 	g.n("typeof-guard")
 	return guard, gc, id, idc
+}
+
+// an expression whose primitive type is usually known
+func (g *tgen) primish(depth int) (js_ast.Expr, string) {
+	r := g.r
+	mk := func(d js_ast.E) js_ast.Expr { return js_ast.Expr{Data: d} }
+	switch r.Intn(12) {
+	case 0:
+		return mk(&js_ast.ENumber{Value: 1}), "(ENum 1)"
+	case 1:
+		return strLit("a")
+	case 2:
+		return mk(&js_ast.EBigInt{Value: "5"}), "(EBigInt 5)"
+	case 3:
+		return mk(&js_ast.EBoolean{Value: true}), "(EBool true)"
+	case 4:
+		return mk(js_ast.ENullShared), "ENull"
+	case 5:
+		return mk(js_ast.EUndefinedShared), "EUndefined"
+	case 6:
+		return mk(&js_ast.ETemplate{}), "(ETemplate None false [])"
+	case 7:
+		return mk(&js_ast.EUnary{Op: js_ast.UnOpNeg, Value: mk(&js_ast.EBigInt{Value: "5"})}), "(EUnary UNeg (EBigInt 5) false)"
+	case 8:
+		return mk(&js_ast.EUnary{Op: js_ast.UnOpVoid, Value: mk(&js_ast.ENumber{Value: 0})}), "(EUnary UVoid (ENum 0) false)"
+	case 9:
+		a, ac := g.primish(depth - 1)
+		b, bc := g.primish(depth - 1)
+		return mk(&js_ast.EIf{Test: mk(&js_ast.EBoolean{Value: true}), Yes: a, No: b}), "(EIf (EBool true) " + ac + " " + bc + ")"
+	case 10:
+		return mk(&js_ast.EObject{}), "(EObject [])"
+	default:
+		return g.expr(depth)
+	}
 }
 
 func (g *tgen) exprs(depth, max int) ([]js_ast.Expr, string) {
@@ -300,6 +334,10 @@ func (g *tgen) expr(depth int) (js_ast.Expr, string) {
 		var lc, rc string
 		if (oc[i] == "BOr" || oc[i] == "BAnd") && r.Chance(60) {
 			l, lc, rr, rc = g.guard()
+		} else if i < 8 && r.Chance(55) {
+			// comparison of (mostly) known primitives: exercises KnownPrimitiveType
+			l, lc = g.primish(d)
+			rr, rc = g.primish(d)
 		} else {
 			l, lc = g.expr(d)
 			rr, rc = g.expr(d)
